@@ -28,7 +28,7 @@ import (
 var Check = &ev.Check{
 	ID:    "C10",
 	Level: "model_checking",
-	Rule: "programs: (B) every valid program of C07's systematic family (reference graphs of <=3 definitions over {typedef, struct, enum, const, service} in 7 include layouts; quick: <=2 definitions, plus the 3-definition programs of the 3/4-file layouts in which a non-root file refers to a constant or enum item of another file) under default options, and (A) a collision family of multi-file programs built so that order can matter (k<=4 includes with equal base names in different directories, unreferenced includes, types whose helper names collide across files, " +
+	Rule: "programs: (B) every valid program of C07's systematic family (reference graphs of <=3 definitions over {typedef, struct, enum, const, service} in 7 include layouts; quick: <=2 definitions, plus the 3-definition programs of the 3/4-file layouts in which a non-root file refers to a constant or enum item of another file) under default options, (C) the struct-default sub-family of C07 (structs whose defaults are struct literals, typedefs of structs and containers of other definitions), and (A) a collision family of multi-file programs built so that order can matter (k<=4 includes with equal base names in different directories, unreferenced includes, types whose helper names collide across files, " +
 		"files named like imported runtime packages (fmt, wire, strings), constants of map/set/struct/list type, 5 services with inheritance across files, enums/unions/exceptions/typedef chains) x option sets {default, NoZap, EnumTextMarshalStrict, OutputFile, NoRecurse, NoEmbedIDL}. " +
 		"schedules: every map-iteration order (all n! for n<=4 keys; {reverse, rotations, adjacent transpositions} beyond) at every range-over-map execution in compile, gen, internal/plugin and plugin with at most 1 deviating execution (thorough: 2 on the small programs). " +
 		"A state is a node of the choice tree, a transition one order choice; every execution is a real compile+generate into a scratch directory with an in-process ServiceGenerator capturing the plugin request. " +
@@ -489,6 +489,62 @@ func run(w *ev.W) {
 			}
 			sort.Strings(descr)
 			w.Violation("nondeterministic:systematic:"+layout, fmt.Sprintf("program %v: %d different outputs depending on map iteration order: %s; differences: %s",
+				p.Files, len(distinct), strings.Join(descr, " "), diffLines(base, other)), map[string]interface{}{"program": p, "orders": distinct})
+		}
+		w.Done()
+	})
+	// family C: struct-default programs (defaults that are struct literals, typedefs of
+	// structs and containers of other definitions; see C07), every map order, <=1 deviation
+	c07.StructPrograms(w.Quick(), func(files map[string]string, desc string) {
+		if len(w.R.Caps) > 0 || !w.Own() {
+			return
+		}
+		if w.Expired() {
+			w.Cap("time budget reached inside the struct-default family")
+			return
+		}
+		p := program{Name: desc, Root: "f0.thrift", Files: map[string]string{}}
+		for path, text := range files {
+			p.Files[strings.TrimPrefix(path, "/m/")] = text
+		}
+		w.Eval(1)
+		base := execute(p, optDefault, out, nil)
+		distinct := map[string][]string{}
+		ex := &choice.Explorer{Bound: 1}
+		ex.Body = func(c *choice.Ctx) {
+			r := execute(p, optDefault, out, c)
+			if _, ok := distinct[r]; !ok {
+				var lab []string
+				for i, pt := range c.Trace {
+					if pt.Choice != 0 {
+						lab = append(lab, fmt.Sprintf("%s#%d=order%d/%d", pt.Label, i, pt.Choice, pt.N))
+					}
+				}
+				distinct[r] = lab
+			}
+		}
+		ex.Run()
+		w.R.States += ex.Stats.States
+		w.R.Transitions += ex.Stats.Transitions
+		w.R.Traces += ex.Stats.Executions
+		w.Count("struct_default_programs", 1)
+		w.Count("executions", ex.Stats.Executions)
+		if ex.Stats.MaxDepth > 0 {
+			w.Nontrivial(1)
+		}
+		w.Outcome("struct-defaults:" + strings.SplitN(base, "\n", 2)[0])
+		distinct[base] = append(distinct[base], []string{}...)
+		if len(distinct) > 1 {
+			var descr []string
+			var other string
+			for r, lab := range distinct {
+				descr = append(descr, fmt.Sprintf("[%s under %v]", strings.SplitN(r, "\n", 2)[0], lab))
+				if r != base {
+					other = r
+				}
+			}
+			sort.Strings(descr)
+			w.Violation("nondeterministic:struct-defaults", fmt.Sprintf("program %v: %d different outputs depending on map iteration order: %s; differences: %s",
 				p.Files, len(distinct), strings.Join(descr, " "), diffLines(base, other)), map[string]interface{}{"program": p, "orders": distinct})
 		}
 		w.Done()
